@@ -74,8 +74,16 @@ fn user_probereq(parameters: &RawParameters, ctx: &dyn Context) -> Result<Op, Er
     Op::plain(parameters, InnerOp(add2_fwd), Some(InnerOp(add2_inv)), &gamut, ctx)
 }
 
+/// a user operator that refuses a definition without `v=`: its refusal is the answer, whatever
+/// built-in may carry the same name
+const NEEDV_GAMUT: [OpParameter; 2] = [OpParameter::Flag { key: "inv" }, OpParameter::Real { key: "v", default: None }];
+fn user_needv(parameters: &RawParameters, ctx: &dyn Context) -> Result<Op, Error> {
+    Op::plain(parameters, InnerOp(add2_fwd), Some(InnerOp(add2_inv)), &NEEDV_GAMUT, ctx)
+}
+
 pub fn user_ctor(tag: &str) -> Option<OpConstructor> {
     match tag {
+        "u:needv" => Some(OpConstructor(user_needv)),
         "u:probe" => Some(OpConstructor(user_probe)),
         "u:probereq" => Some(OpConstructor(user_probereq)),
         "u:add2" => Some(OpConstructor(user_add2)),
